@@ -26,6 +26,7 @@ ASSUMPTIONS = [
 TIMEOUT = {"quick": 1800, "thorough": 5400}
 MIN_COUNTERS = {"quick": {"system_evaluations": 60, "non_square_systems": 10, "dict_weight_systems": 10,
                           "one_by_one_systems": 4, "nonstatio_systems": 15, "mixed_stationary_nonstationary_systems": 6,
+                          "ode_systems_with_one_network_object_for_two_unknowns_with_initial_conditions": 2,
                           "boundary_terms_restricted_to_a_component_nonstatio": 3, "boundary_terms_restricted_to_a_component_statio": 3,
                           "systems_with_a_heterogeneous_parameter": 12},
                 "thorough": {"system_evaluations": 800, "non_square_systems": 150, "dict_weight_systems": 150,
@@ -58,6 +59,15 @@ def gen_cases(tier, seed):
             non_obs = [p for p in avail if p != "obs"]
             per_u = {n: ([non_obs[(k + i) % len(non_obs)]] if i % 2 == 0 else []) for i, n in enumerate(names)}
         force_bdim = False
+        if kind == "ode" and k % 12 == 9 and k % 9 not in (3, 4, 5):
+            # three unknowns, the first and the third with an initial condition each; with the odd case seed they
+            # share ONE network object (same output count): every unknown keeps its own initial condition
+            U = 3
+            names = (names + [n_ for n_ in NAMES if n_ not in names])[:U]
+            per_u = {n: per_u.get(n, []) for n in names}
+            for n_ in (names[0], names[2]):
+                if "ic" not in per_u[n_]:
+                    per_u[n_] = ["ic"] + per_u[n_]
         if kind != "ode" and k % 5 == 2 and k % 9 not in (3, 4, 5):
             # guaranteed presence of a boundary condition restricted to one component of a two-output unknown (the
             # second unknown has two outputs unless it carries a normalisation part)
@@ -513,6 +523,8 @@ def run_case(case, rec):
         rec.count("dict_weight_systems")
     if kind == "nonstatio":
         rec.count("nonstatio_systems")
+    if kind == "ode" and case["seed"] % 2 and len(sp.names) >= 3 and all("ic" in sp.per_u[n_] for n_ in (sp.names[0], sp.names[2])):
+        rec.count("ode_systems_with_one_network_object_for_two_unknowns_with_initial_conditions")
     for n_ in sp.names:
         if "boundary" in sp.per_u[n_] and sp.bdim[n_] is not None:
             rec.count("boundary_terms_restricted_to_a_component_%s" % kind)
